@@ -14,7 +14,12 @@ QUICK_BASES_11 = ["frame", "frame_index", "frame_multi", "series", "series_index
 
 
 def plan_shards(tier, parsers=False, bases=None, nshards_big=48, quick_pairs=("frame",), extra=None,
-                thorough_combos=((1, 2), (2, 1), (2, 2))):
+                thorough_combos=((1, 2), (2, 1), (2, 2)), quick_exact=((0, 2), (2, 0), (1, 2))):
+    """shards of the deviation-bounded space.  Every base: all cases with <= 1 schema edit and <= 1 data edit (rich alphabet).
+    Deeper layers are enumerated by *exact* edit counts so that no case is evaluated twice:
+      quick     bases in quick_pairs: exactly (0,2), (2,0), (1,2) edits, core alphabet
+      thorough  every base: exactly (0,2), (2,0), (1,2), (2,1) rich and (2,2) core
+    (combinations of >= 3 edits only when they collide on one component or are frame-level)."""
     cases = []
     if bases is None:
         bases = QUICK_BASES_11 + (["frame_parsing"] if parsers else [])
@@ -23,16 +28,21 @@ def plan_shards(tier, parsers=False, bases=None, nshards_big=48, quick_pairs=("f
             cases.append({"base": b, "ks": 1, "kd": 1, "shard": [sh, 4], "parsers": parsers, "rich": True})
     if tier == "quick":
         for b in quick_pairs:
-            for (ks, kd) in ((1, 2), (2, 1)):
-                for sh in range(nshards_big):
-                    cases.append({"base": b, "ks": ks, "kd": kd, "shard": [sh, nshards_big], "parsers": parsers,
-                                  "rich": False})
-    else:
-        for b in bases:
-            for (ks, kd) in thorough_combos:
-                n = nshards_big * (4 if (ks, kd) == (2, 2) else 1)
+            for (ks, kd) in quick_exact:
+                n = nshards_big if ks + kd >= 3 else 8
                 for sh in range(n):
-                    cases.append({"base": b, "ks": ks, "kd": kd, "shard": [sh, n], "parsers": parsers,
+                    cases.append({"base": b, "ks": ks, "kd": kd, "exact": [ks, kd], "shard": [sh, n], "parsers": parsers, "rich": False})
+    else:
+        exacts = []
+        for (ks, kd) in thorough_combos:
+            for e in ([(0, 2), (1, 2)] if (ks, kd) == (1, 2) else [(2, 0), (2, 1)] if (ks, kd) == (2, 1) else [(ks, kd)]):
+                if e not in exacts:
+                    exacts.append(e)
+        for b in bases:
+            for (ks, kd) in exacts:
+                n = nshards_big * (4 if (ks, kd) == (2, 2) else 1) if ks + kd >= 3 else 8
+                for sh in range(n):
+                    cases.append({"base": b, "ks": ks, "kd": kd, "exact": [ks, kd], "shard": [sh, n], "parsers": parsers,
                                   "rich": (ks, kd) != (2, 2)})
     for c in cases:
         if extra:
@@ -44,14 +54,14 @@ def concrete_cases(case):
     if "concrete" in case:
         return [case["concrete"]]
     return E.space(case["base"], case["ks"], case["kd"], parsers=case.get("parsers", False),
-                   rich=case.get("rich", True), shard=tuple(case["shard"]))
+                   rich=case.get("rich", True), shard=tuple(case["shard"]), exact=tuple(case["exact"]) if case.get("exact") else None)
 
 
 BOUNDS_TEXT = {
     "rows": "3 (base) .. 4 (after a duplicate-row edit), 0 for the empty-frame edit",
-    "quick": "all bases with <=1 schema edit x <=1 data edit (rich alphabet); base 'frame' with (1,2) and (2,1) edits (core alphabet); "
-             "combinations of >=3 edits restricted to edits that collide on one component or are frame-level",
-    "thorough": "all bases with (1,1), (1,2), (2,1) rich alphabet and (2,2) core alphabet, same collision restriction",
+    "quick": "all bases with <=1 schema edit x <=1 data edit (rich alphabet); base 'frame' with exactly (0,2), (2,0) and (1,2) (schema, data) edits "
+             "(core alphabet); combinations of >=3 edits restricted to edits that collide on one component or are frame-level",
+    "thorough": "all bases with <=(1,1), exactly (0,2), (2,0), (1,2), (2,1) edits (rich alphabet) and (2,2) (core alphabet), same collision restriction",
 }
 
 
@@ -70,7 +80,7 @@ def run_shard(case, oracle):
                 continue
             seen.add(sig)
             x = dict(x)
-            keep = {k: val for k, val in case.items() if k not in ("base", "ks", "kd", "shard", "rich", "parsers")}
+            keep = {k: val for k, val in case.items() if k not in ("base", "ks", "kd", "shard", "rich", "parsers", "exact")}
             x["case"] = dict(keep, concrete=cc)
             viol.append(x)
     top = max(outcomes.items(), key=lambda kv: kv[1])[0] if outcomes else "empty"
